@@ -216,7 +216,7 @@ theorem parserFacts_reqOf (dec : Wire.Dec) (ks : Wire.KeySet) (data : Bytes) (fv
       cases hh : p.header with
       | v3 h => simp [reqOfPacket, versionOf, hh] at h5
       | v4 h => simp [reqOfPacket, versionOf, hh] at h5
-      | v5 h => rw [hh] at hf; simpa [reqOfPacket] using hf
+      | v5 h => rw [hh] at hf; simpa [reqOfPacket] using hf.1
   | decryptErr p =>
     have hr : ∃ c, Wire.parseR dec (.keyset ks) data = .ok (p, c, false) := by
       unfold Wire.parse at hp
@@ -233,7 +233,7 @@ theorem parserFacts_reqOf (dec : Wire.Dec) (ks : Wire.KeySet) (data : Bytes) (fv
       cases hh : p.header with
       | v3 h => simp [reqOfPacket, versionOf, hh] at h5
       | v4 h => simp [reqOfPacket, versionOf, hh] at h5
-      | v5 h => rw [hh] at hf; simpa [reqOfPacket] using hf
+      | v5 h => rw [hh] at hf; simpa [reqOfPacket] using hf.1
   | err e => exact ⟨fun h3 => by simp [reqNone] at h3, fun h5 => by simp [reqNone] at h5⟩
   | panic => exact ⟨fun h3 => by simp [reqNone] at h3, fun h5 => by simp [reqNone] at h5⟩
   | fuel => exact ⟨fun h3 => by simp [reqNone] at h3, fun h5 => by simp [reqNone] at h5⟩
